@@ -223,3 +223,24 @@ def double_outage_family():
                     if periods:
                         sc['periods'] = periods
                     yield sc
+
+
+def racing_engine_family():
+    """the same run is finished (or advanced) on a peer and, at the same moment, locally: the peer's notification is being
+    applied by the distributed thread while the engine thread processes the datum that does the same to the local copy
+    (`inq` + `deli`): the run is reported once, stays finished, no second complex event, replicas agree."""
+    for names in (['A', 'B'], ['A', 'B', 'C']):
+        for phens, pre, last in ((CONFLICT, [0, 1, 2], 3), (CONFLICT, [0, 1, 2], 9), (CONFLICT, [0, 1], 2), (TWO, [0, 1], 2),
+                                 (TWO, [1, 2], 3), (ONEBLOCK, [0, 1], 2), (LOOPY, [0, 1, 1, 2], 3)):
+            for cache in (1000,):        # the finished-run memory is what makes a second report impossible
+                ops = ['sync']
+                for d in pre:
+                    ops += [f'in A {d}', 'sync']
+                # B does the last step and announces it; A has the same datum waiting in its receiver
+                ops += [f'in B {last}', 'pass B', f'inq A {last}', 'deli B A', 'sync', 'heal']
+                yield {'names': names, 'phens': phens, 'cache': cache, 'ops': ops}
+                ops2 = ['sync']
+                for d in pre:
+                    ops2 += [f'in A {d}', 'sync']
+                ops2 += [f'in B {last}', f'in B {pre[0]}', 'pass B', 'pass B', f'inq A {last}', f'inq A {pre[0]}', 'deli B A', 'deli B A', 'sync', 'heal']
+                yield {'names': names, 'phens': phens, 'cache': cache, 'ops': ops2}
